@@ -132,17 +132,6 @@ fn sample_i16_matches_i32() {
     }
     kani::cover!(!fits16(s32 as i64));
 
-    // wrapping_muladd_i32 -- multiplier and offset are full i32 (MA tree leaf)
-    let mul: i32 = kani::any();
-    let add: i32 = kani::any();
-    let m16 = <i16 as Sealed>::wrapping_muladd_i32(a, mul, add);
-    let m32 = <i32 as Sealed>::wrapping_muladd_i32(a as i32, mul, add);
-    assert!(m16 == m32 as i16, "[C12,C01] i16::wrapping_muladd_i32 == i32 result truncated to 16 bits");
-    if fits16(m32 as i64) {
-        assert!(m16 as i32 == m32, "[C12] i16::wrapping_muladd_i32 == i32 version whenever the result fits in int16");
-    }
-    kani::cover!(fits16(m32 as i64) && !fits16(mul as i64));
-
     // grad_clamped -- result lies between w and n, so it always fits: no premise needed
     let n: i16 = kani::any();
     let w: i16 = kani::any();
@@ -163,4 +152,24 @@ fn sample_i16_matches_i32() {
     assert!(<i16 as Sample>::from_u32(u) == u as i16, "[C12,C01] from_u32 truncates");
     assert!(<i16 as Sample>::to_i32(a) == a as i32 && <i16 as Sample>::to_i64(a) == a as i64, "[C12,C01] widening conversions sign-extend");
     assert!(<i16 as Sample>::to_f32(a) == <i32 as Sample>::to_f32(a as i32), "[C12,C01] to_f32 agrees");
+}
+
+/// wrapping_muladd_i32: multiplier and offset are full i32 values of the MA-tree leaf (image.rs:887).
+/// A 16x32-bit multiplier equivalence does not close with SAT (CaDiCaL / Kissat > 300 s); Z3's
+/// bit-vector rewriting closes it in 2 s.
+#[kani::proof]
+#[kani::solver(z3)]
+fn sample_i16_muladd_matches_i32() {
+    let a: i16 = kani::any();
+    let mul: i32 = kani::any();
+    let add: i32 = kani::any();
+    let m16 = <i16 as Sealed>::wrapping_muladd_i32(a, mul, add);
+    let m32 = <i32 as Sealed>::wrapping_muladd_i32(a as i32, mul, add);
+    assert!(m16 == m32 as i16, "[C12,C01] i16::wrapping_muladd_i32 == i32 result truncated to 16 bits, for every sample / multiplier / offset");
+    // corollary (pure truncation fact, no multiplier involved): if m32 fits in int16 then m32 as i16 as i32 == m32,
+    // i.e. the i16 result IS the i32 result.  Not asserted separately: the extra case split makes Z3 time out.
+    let x: i32 = kani::any();
+    if fits16(x as i64) {
+        assert!((x as i16) as i32 == x, "[C12] truncation to 16 bits is the identity on values that fit in int16");
+    }
 }
